@@ -396,6 +396,7 @@ func runC05(c *core.Ctx) {
 	c.Obs("metamorphic_pairs_equal", meta)
 	c.Obs("agreed_but_forbidden_rejected", agreedBad)
 	c05Reduce(c, fn)
+	c05Sides(c, owner, fn)
 }
 
 func c05Summary(c *core.Ctx, id string, obs VerifyObs, k c05Case, wantMats, wantProds map[string]intoto.HashObj, detail map[string]any) {
@@ -421,6 +422,78 @@ func c05Summary(c *core.Ctx, id string, obs VerifyObs, k c05Case, wantMats, want
 	case isEnv != k.DSSE:
 		c.Violation("summary link uses another wrapper than the layout", id, detail)
 	}
+}
+
+// c05Sides: two counted links that report the same artifacts with the same digests but file them on
+// different sides (what one functionary saw as a product the other saw as a material, ...). Flattened
+// into one sequence the two reports read the same; as reports they differ. One step, rules ALLOW *,
+// threshold 2, through both wrappers and both entry points, each verification repeated.
+func c05Sides(c *core.Ctx, owner gen.KeyPair, fn []gen.KeyPair) {
+	type report struct {
+		Mats  map[string]string `json:"materials"`
+		Prods map[string]string `json:"products"`
+	}
+	shapes := []struct {
+		name string
+		a, b report
+		same bool
+	}{
+		{"a product of one link is a material of the other", report{map[string]string{"src.c": "1"}, map[string]string{"tool.bin": "2"}}, report{map[string]string{"src.c": "1", "tool.bin": "2"}, map[string]string{}}, false},
+		{"all materials of one link are products of the other", report{map[string]string{}, map[string]string{"a": "1", "b": "2"}}, report{map[string]string{"a": "1", "b": "2"}, map[string]string{}}, false},
+		{"the first product of one link is the last material of the other", report{map[string]string{"a": "1"}, map[string]string{"b": "2", "c": "3"}}, report{map[string]string{"a": "1", "b": "2"}, map[string]string{"c": "3"}}, false},
+		{"materials and products swapped", report{map[string]string{"a": "1"}, map[string]string{"a": "1", "b": "2"}}, report{map[string]string{"a": "1", "b": "2"}, map[string]string{"a": "1"}}, false},
+		{"control: the same report twice", report{map[string]string{"src.c": "1"}, map[string]string{"tool.bin": "2"}}, report{map[string]string{"src.c": "1"}, map[string]string{"tool.bin": "2"}}, true},
+	}
+	n := 0
+	ok := int64(0)
+	for _, dsse := range []bool{false, true} {
+		for _, runDir := range []bool{false, true} {
+			for si, sh := range shapes {
+				n++
+				id := fmt.Sprintf("sides/%d/dsse=%v/rundir=%v", si, dsse, runDir)
+				if !c.Mine(n) || !c.Want(id) {
+					continue
+				}
+				root := filepath.Join(c.WorkDir, fmt.Sprintf("c05-sides-%d", n))
+				linkDir, finalDir := filepath.Join(root, "links"), filepath.Join(root, gen.RunDirName)
+				mkdirs(linkDir, finalDir)
+				writeFile(filepath.Join(finalDir, "keep"), "x")
+				layout := gen.NewLayout([]intoto.Step{gen.Step("build", 2, gen.KeyIDs(fn[0], fn[1]), [][]string{{"ALLOW", "*"}}, [][]string{{"ALLOW", "*"}})}, nil, gen.KeyMap(fn[0], fn[1]))
+				md, err := gen.SignedMeta(layout, dsse, owner.Priv)
+				if err != nil {
+					continue
+				}
+				for li, rp := range []report{sh.a, sh.b} {
+					gen.WriteLink(linkDir, gen.NewLink("build", gen.Artifacts(rp.Mats), gen.Artifacts(rp.Prods)), fn[li].Priv, dsse)
+				}
+				detail := map[string]any{"shape": sh.name, "dsse": dsse, "run_dir": runDir, "link_1": sh.a, "link_2": sh.b}
+				c.Begin(id)
+				for rep := 0; rep < 6; rep++ {
+					a := VerifyArgs{Layout: md, Keys: gen.KeyMap(owner), LinkDir: linkDir, Cwd: finalDir}
+					if runDir {
+						a.RunDir, a.Cwd = gen.RunDirName, root
+					}
+					obs := Verify(a)
+					c.Eval(1)
+					detail["error"] = errStr(obs.Err)
+					reportTrace(c, id, obs, detail)
+					if obs.Accepted() != sh.same {
+						if sh.same {
+							c.Violation("agreeing counted links rejected: "+core.MsgClass(stripDirs(errStr(obs.Err), root)), id, detail)
+						} else {
+							c.Violation("accepted although two counted links of a step differ ("+sh.name+")", id, detail)
+						}
+						break
+					}
+					ok++
+				}
+				c.End(id)
+				c.Class("sides", sh.name, dsse, runDir)
+				removeAll(root)
+			}
+		}
+	}
+	c.Obs("links_differing_in_sides_only_as_expected", ok)
 }
 
 // c05Reduce calls ReduceStepsMetadata directly.
@@ -472,7 +545,7 @@ func init() {
 	core.Register(&core.Property{
 		ID:    "C05",
 		Level: "exploration",
-		Rule: "chains of 1-4 steps (step i consumes the product of step i-1), thresholds 1-3, threshold..3 validly signed authorized links per step; a single difference {added path, dropped path, one digest nibble, renamed algorithm, added algorithm, the same path spelled ./path, nothing reported at all, a digest that is not hexadecimal} in the materials or products of one counted link at every step position, in a quarter of the legacy cases reported by a functionary who is authorized through a certificate constraint while the others are listed by key, in a fifth with the last-sorting link file co-signed by a functionary whose own link disagrees; all counted links of one step (every position) agreeing on a product that step's rules forbid, with and without a rule-less step in front of it (rejected unless the agreeing step itself has no rules); uncounted links (unsigned / unauthorized / tampered) with arbitrary other artifacts added to otherwise identical directories (metamorphic pairs; the product rules REQUIRE f_i / DISALLOW evil would flip the verdict if they were evaluated on the uncounted link); 2 wrappers x 2 entry points; a third of the chains carry MATCH ... IN vendor rules on the first and last step that consume nothing (the agreed sets and the summary must not change); a third of the chains report one more product (and first-step material) without any digest - an empty hash object - which belongs to the agreed sets and to the summary like every other artifact; a fifth of the agreeing chains carry an inspection named like the first or the last step; every case verified 4 times (the reference link is picked from a map); the summary link is compared with (requested name, agreed materials of the first step, agreed products of the last step); ReduceStepsMetadata called directly with the difference at each of 3 positions x 6 repetitions. " +
+		Rule: "chains of 1-4 steps (step i consumes the product of step i-1), thresholds 1-3, threshold..3 validly signed authorized links per step; a single difference {added path, dropped path, one digest nibble, renamed algorithm, added algorithm, the same path spelled ./path, nothing reported at all, a digest that is not hexadecimal} in the materials or products of one counted link at every step position, in a quarter of the legacy cases reported by a functionary who is authorized through a certificate constraint while the others are listed by key, in a fifth with the last-sorting link file co-signed by a functionary whose own link disagrees; all counted links of one step (every position) agreeing on a product that step's rules forbid, with and without a rule-less step in front of it (rejected unless the agreeing step itself has no rules); uncounted links (unsigned / unauthorized / tampered) with arbitrary other artifacts added to otherwise identical directories (metamorphic pairs; the product rules REQUIRE f_i / DISALLOW evil would flip the verdict if they were evaluated on the uncounted link); 2 wrappers x 2 entry points; a third of the chains carry MATCH ... IN vendor rules on the first and last step that consume nothing (the agreed sets and the summary must not change); a third of the chains report one more product (and first-step material) without any digest - an empty hash object - which belongs to the agreed sets and to the summary like every other artifact; a fifth of the agreeing chains carry an inspection named like the first or the last step; every case verified 4 times (the reference link is picked from a map); the summary link is compared with (requested name, agreed materials of the first step, agreed products of the last step); ReduceStepsMetadata called directly with the difference at each of 3 positions x 6 repetitions. one-step chains whose two counted links report the same artifacts with the same digests on different sides (a product of one is a material of the other, all materials of one are products of the other, the boundary shifted by one artifact, sides swapped) must be rejected, the same report twice accepted (6 repetitions, both wrappers and entry points). " +
 			"non-trivial = >=2 counted links or an uncounted link with other artifacts; distinct = the case tuple",
 		Assumptions: []string{"every validly signed authorized link counts, also beyond the threshold"},
 		Workers:     func(string) int { return 16 },
